@@ -93,91 +93,120 @@ def findPos (x : FState Nat Nat) (w s d : Nat) : Option Nat :=
 
 def isWorker (k w : Nat) : Bool := w < k
 
-def one (k : Nat) (dfs : Bool) (tv : TV) (e : Ev) : R TV := do
-  let x := tv.x
+def onePop (k : Nat) (tv : TV) (e : Ev) : R TV := do
+  if !isWorker k e.w then throw "pop by a thread that is not a worker"
+  let x ← advance P tv.x e.w (fuelOf P)
+  let r := (Market.stepR x.m (if e.b == 0 then Step.popBegin e.w else Step.wake e.w)).bind (·.2)
+  if !popResOk r e then throw s!"pop/wake outcome: model {showPop r}, implementation kind {e.kind} size {e.a}"
+  let x ← stepE P x (if e.b == 0 then FStep.pop e.w else FStep.wake e.w)
+  pure { tv with x }
+
+def oneSplit (tv : TV) (e : Ev) : R TV := do
   let w := e.w
-  match e.kind with
-  | 1 | 2 | 3 =>
-    if !isWorker k w then throw "pop by a thread that is not a worker"
-    let x ← advance P x w (fuelOf P)
-    let (f, ms) := if e.b == 0 then (FStep.pop w, Step.popBegin w) else (FStep.wake w, Step.wake w)
-    let r := (Market.stepR x.m ms).bind (·.2)
-    if !popResOk r e then throw s!"pop/wake outcome: model {showPop r}, implementation kind {e.kind} size {e.a}"
+  let x ← advance P tv.x w (fuelOf P)
+  if (locOf x.m w).length != e.a then throw s!"split: deque length model {(locOf x.m w).length} implementation {e.a}"
+  let parked := (List.range x.m.pcs.length).filter fun v => x.m.pcs[v]? == some (Pc.parked false)
+  let x' ← stepE P x (.split w (parked.take tv.pieces.length))
+  if (locOf x'.m w).length != e.b then throw s!"split: deque length after: model {(locOf x'.m w).length} implementation {e.b}"
+  let newB := x'.m.batches.take (x'.m.batches.length - x.m.batches.length)
+  if newB.map List.length != tv.pieces.reverse then
+    throw s!"split: published batches model {newB.map List.length} implementation {tv.pieces.reverse}"
+  pure { tv with x := x', pieces := [] }
+
+def oneSplitClosed (tv : TV) (e : Ev) : R TV := do
+  let w := e.w
+  let x ← advance P tv.x w (fuelOf P)
+  if x.m.isOpen then throw "split found the market closed, the model has it open"
+  if (locOf x.m w).length != e.a then throw s!"split(closed): deque length model {(locOf x.m w).length} implementation {e.a}"
+  let x ← stepE P x (.split w [])
+  pure { tv with x }
+
+def oneDrop (k : Nat) (tv : TV) (e : Ev) : R TV := do
+  let w := e.w
+  if isWorker k w then
+    let x ← advance P tv.x w (fuelOf P)
+    let f : FStep := match tv.reason.lookup w with
+      | some 1 => .stop w .finish
+      | some 2 => .stop w .target
+      | some _ => .exit w
+      | none => .stop w .panic
     let x ← stepE P x f
     pure { tv with x }
+  else
+    let x ← stepE P tv.x .xdrop
+    pure { tv with x }
+
+def oneTake (tv : TV) (e : Ev) : R TV := do
+  let w := e.w
+  let x ← advance P tv.x w (fuelOf P)
+  if w ∈ x.aw then throw "take while the model still works on the previous job"
+  match findPos x w e.a e.b with
+  | none => throw s!"take: no job for state {e.a} depth {e.b} in the model's deque of worker {w}"
+  | some p =>
+    if p + 1 != (locOf x.m w).length then throw s!"take: not the job at the back of the deque (position {p} of {(locOf x.m w).length})"
+    let x ← stepE P x (.take w p)
+    let x ← advance P x w (fuelOf P)
+    pure { tv with x }
+
+def oneProp (tv : TV) (e : Ev) : R TV := do
+  let x := tv.x
+  let w := e.w
+  match activeOf x w with
+  | some { job := j, phase := .props i _ } =>
+    if i != e.a then throw s!"property loop: model at index {i}, implementation at {e.a}"
+    let known := hasDisc x.c.disc i
+    if e.b == 0 && !known then throw s!"property {i} skipped as discovered, the model has no discovery"
+    let x' ← stepE P x (.evalProp w (e.b != 0 && known))
+    let inserted := x'.c.disc.head? == some (i, j.path) && x'.c.disc.length ≥ x.c.disc.length &&
+      !(x.c.disc.head? == some (i, j.path) && x'.c.disc.length == x.c.disc.length && e.b != 1)
+    if e.b == 1 && !inserted then throw s!"property {i}: the implementation inserted a discovery, the model did not"
+    if e.b == 2 && x'.c.disc.length != x.c.disc.length then throw s!"property {i}: the model inserted a discovery, the implementation did not"
+    let x' ← advance P x' w (fuelOf P)
+    pure { tv with x := x' }
+  | _ => throw s!"property entry, but worker {w} is not in its property loop in the model"
+
+def oneExpand (dfs : Bool) (tv : TV) (e : Ev) : R TV := do
+  let x := tv.x
+  let w := e.w
+  match activeOf x w with
+  | some { job := _, phase := .expanding (t :: _) } =>
+    if P.key t != e.a then throw s!"expand: model successor {t}, implementation {e.a}"
+    let isNew := !(x.c.gen.contains (P.key t))
+    if isNew != (e.b == 1) then throw s!"expand {t}: new in the model = {isNew}, in the implementation = {e.b == 1}"
+    let x ← stepE P x (.expand w (!dfs) x.m.created.length dfs)
+    let x ← advance P x w (fuelOf P)
+    pure { tv with x }
+  | _ => throw s!"expand entry, but worker {w} has no successor left in the model"
+
+def oneRecord (tv : TV) (e : Ev) : R TV := do
+  let x := tv.x
+  let w := e.w
+  match activeOf x w with
+  | some { job := _, phase := .recording i } =>
+    if i != e.a then throw s!"terminal-state loop: model at index {i}, implementation records {e.a}"
+    let x ← stepE P x (.record w)
+    let x ← advance P x w (fuelOf P)
+    pure { tv with x }
+  | _ => throw s!"record entry, but worker {w} is not at a terminal state in the model"
+
+def oneTimeout (tv : TV) : R TV := do
+  let x ← stepE P tv.x .timeout
+  pure { tv with x }
+
+def one (k : Nat) (dfs : Bool) (tv : TV) (e : Ev) : R TV :=
+  match e.kind with
+  | 1 | 2 | 3 => onePop P k tv e
   | 5 => throw "unexpected push"
   | 8 => pure { tv with pieces := tv.pieces ++ [e.a] }
-  | 7 =>
-    let x ← advance P x w (fuelOf P)
-    if (locOf x.m w).length != e.a then throw s!"split: deque length model {(locOf x.m w).length} implementation {e.a}"
-    let parked := (List.range x.m.pcs.length).filter fun v => x.m.pcs[v]? == some (Pc.parked false)
-    let x' ← stepE P x (.split w (parked.take tv.pieces.length))
-    if (locOf x'.m w).length != e.b then throw s!"split: deque length after: model {(locOf x'.m w).length} implementation {e.b}"
-    let newB := x'.m.batches.take (x'.m.batches.length - x.m.batches.length)
-    if newB.map List.length != tv.pieces.reverse then
-      throw s!"split: published batches model {newB.map List.length} implementation {tv.pieces.reverse}"
-    pure { tv with x := x', pieces := [] }
-  | 9 =>
-    let x ← advance P x w (fuelOf P)
-    if x.m.isOpen then throw "split found the market closed, the model has it open"
-    if (locOf x.m w).length != e.a then throw s!"split(closed): deque length model {(locOf x.m w).length} implementation {e.a}"
-    let x ← stepE P x (.split w [])
-    pure { tv with x }
-  | 10 =>
-    if isWorker k w then
-      let x ← advance P x w (fuelOf P)
-      match tv.reason.lookup w with
-      | some 1 => let x ← stepE P x (.stop w .finish); pure { tv with x }
-      | some 2 => let x ← stepE P x (.stop w .target); pure { tv with x }
-      | some _ => let x ← stepE P x (.exit w); pure { tv with x }
-      | none => let x ← stepE P x (.stop w .panic); pure { tv with x }
-    else
-      let x ← stepE P x .xdrop
-      pure { tv with x }
-  | 11 => let x ← stepE P x .timeout; pure { tv with x }
-  | 20 =>
-    let x ← advance P x w (fuelOf P)
-    if w ∈ x.aw then throw "take while the model still works on the previous job"
-    match findPos x w e.a e.b with
-    | none => throw s!"take: no job for state {e.a} depth {e.b} in the model's deque of worker {w}"
-    | some p =>
-      if p + 1 != (locOf x.m w).length then throw s!"take: not the job at the back of the deque (position {p} of {(locOf x.m w).length})"
-      let x ← stepE P x (.take w p)
-      let x ← advance P x w (fuelOf P)
-      pure { tv with x }
-  | 21 =>
-    match activeOf x w with
-    | some { job := j, phase := .props i _ } =>
-      if i != e.a then throw s!"property loop: model at index {i}, implementation at {e.a}"
-      let known := hasDisc x.c.disc i
-      if e.b == 0 && !known then throw s!"property {i} skipped as discovered, the model has no discovery"
-      let x' ← stepE P x (.evalProp w (e.b != 0 && known))
-      let inserted := x'.c.disc.head? == some (i, j.path) && x'.c.disc.length ≥ x.c.disc.length &&
-        !(x.c.disc.head? == some (i, j.path) && x'.c.disc.length == x.c.disc.length && e.b != 1)
-      if e.b == 1 && !inserted then throw s!"property {i}: the implementation inserted a discovery, the model did not"
-      if e.b == 2 && x'.c.disc.length != x.c.disc.length then throw s!"property {i}: the model inserted a discovery, the implementation did not"
-      let x' ← advance P x' w (fuelOf P)
-      pure { tv with x := x' }
-    | _ => throw s!"property entry, but worker {w} is not in its property loop in the model"
-  | 22 =>
-    match activeOf x w with
-    | some { job := _, phase := .expanding (t :: _) } =>
-      if P.key t != e.a then throw s!"expand: model successor {t}, implementation {e.a}"
-      let isNew := !(x.c.gen.contains (P.key t))
-      if isNew != (e.b == 1) then throw s!"expand {t}: new in the model = {isNew}, in the implementation = {e.b == 1}"
-      let x ← stepE P x (.expand w (!dfs) x.m.created.length dfs)
-      let x ← advance P x w (fuelOf P)
-      pure { tv with x }
-    | _ => throw s!"expand entry, but worker {w} has no successor left in the model"
-  | 23 =>
-    match activeOf x w with
-    | some { job := _, phase := .recording i } =>
-      if i != e.a then throw s!"terminal-state loop: model at index {i}, implementation records {e.a}"
-      let x ← stepE P x (.record w)
-      let x ← advance P x w (fuelOf P)
-      pure { tv with x }
-    | _ => throw s!"record entry, but worker {w} is not at a terminal state in the model"
-  | 24 => pure { tv with reason := (w, e.a) :: tv.reason.filter (·.1 != w) }
+  | 7 => oneSplit P tv e
+  | 9 => oneSplitClosed P tv e
+  | 10 => oneDrop P k tv e
+  | 11 => oneTimeout P tv
+  | 20 => oneTake P tv e
+  | 21 => oneProp P tv e
+  | 22 => oneExpand P dfs tv e
+  | 23 => oneRecord P tv e
+  | 24 => pure { tv with reason := (e.w, e.a) :: tv.reason.filter (·.1 != e.w) }
   | _ => throw s!"unknown entry kind {e.kind}"
 
 def replay (k : Nat) (dfs : Bool) : TV → Nat → List Ev → R TV
